@@ -37,6 +37,7 @@ type Script struct {
 	Schedule  []int  `json:"schedule,omitempty"`
 	Strategy  string `json:"strategy,omitempty"`
 	SchedSeed uint64 `json:"sched_seed,omitempty"`
+	Names     string `json:"names,omitempty"`    // "ambig": block hashes q^(i mod 4) z (i div 4), see Gen
 	Scribble  bool   `json:"scribble,omitempty"` // C08: readers edit every value a hit returned (after recording it)
 }
 
